@@ -93,10 +93,7 @@ func (e *Engine) arrayInput(name string, n int) *term.Term {
 			}
 			return a
 		}
-		if e.Concrete.Random {
-			if n > 4096 {
-				panic(unsupported("random concrete fill of a large array"))
-			}
+		if e.Concrete.Random && n <= 4096 { // larger arrays are zero-filled, as in the native vp
 			for i := 0; i < n; i++ {
 				a = term.Store(a, term.Const(32, uint64(i)), term.Const(8, HashValue(e.Concrete.Seed, name, uint64(i))))
 			}
@@ -235,6 +232,9 @@ func (e *Engine) registerIntrinsics() {
 			}
 			st.obs = append(st.obs[:len(st.obs):len(st.obs)], Observation{strArg(args[0]), mkStr(bs)})
 			return ret(st, nil)
+		})
+		reg(vpk+".Conformance", func(e *Engine, st *State, args []Value, depth int) []Outcome {
+			return ret(st, term.Bool(e.Concrete != nil && e.Concrete.Random))
 		})
 		reg(vpk+".Symbolic", func(e *Engine, st *State, args []Value, depth int) []Outcome {
 			return ret(st, term.Bool(e.Concrete == nil))
@@ -464,7 +464,7 @@ func (e *Engine) newError(st *State, msg *StrV) Value {
 // bytesEqual builds the extensional equality of two byte slices of equal concrete length.
 func (e *Engine) bytesEqual(st *State, a, b *SliceV) *term.Term {
 	la, lb := srcLen(a), srcLen(b)
-	if la != lb {
+	if !term.Same(la, lb) {
 		if la.IsConst() && lb.IsConst() {
 			return term.False
 		}
